@@ -185,12 +185,15 @@ def harness_violation(case, r):
     if r.get("panic"):
         return "panic: " + r["panic"]
     if (r.get("e2erace") or {}).get("failures"):
-        return "concurrent release/open: " + r["e2erace"]["failures"][0]
+        return ("long-lived region: " if case.get("kind") == "ctlwrap" else "concurrent release/open: ") + \
+            r["e2erace"]["failures"][0]
     kind = case.get("kind", "ctl")
-    if kind in ("e2ev", "e2e", "conc") and (r.get("e2e") or r.get("hist")):
+    if kind in ("e2ev", "e2e", "conc", "e2eg") and (r.get("e2e") or r.get("hist") or r.get("e2eg")):
         # replayed / corpus cases of the extra phases: evaluate their own monitor
         try:
-            if kind == "e2ev":
+            if kind == "e2eg":
+                q = "e2eg_violations [%s : e2eg_case_t]" % e2eg_to_coq(case, r)
+            elif kind == "e2ev":
                 q = "e2ev_violations [%s : e2ev_case_t]" % e2ev_to_coq(case, r)
             elif kind == "e2e":
                 q = "e2e_violations [%s : e2e_case_t]" % e2e_to_coq(case, r)
@@ -398,6 +401,147 @@ def e2ev_to_coq(case, r):
     return clist(steps)
 
 
+def gen_e2eg(rng):
+    """writers spanning 1-3 index groups (+ virtual channels 4,5); holders control a SUBSET of the groups of a
+    spanning contender, which is re-opened several times (the order in which a writer visits its groups is fixed
+    by Go map iteration when it is opened)."""
+    ops, live, nw = [], {}, 0
+    base = rng.choice([50, 100, 127])
+
+    def opn(units, auths, eou=False):
+        nonlocal nw
+        ops.append({"op": "open", "w": nw, "subj": nw + 1, "units": [[u, a] for u, a in zip(units, auths)], "eou": eou})
+        if not eou:
+            live[nw] = list(units)
+        nw += 1
+        return nw - 1
+
+    def wr(w):
+        ks = rng.sample(live[w], len(live[w])) if rng.random() < 0.7 else \
+            rng.sample(live[w], rng.randrange(1, len(live[w]) + 1))
+        ops.append({"op": "write", "w": w, "keys": ks, "n": rng.randrange(1, 3)})
+    # holders on a subset of the groups
+    groups = rng.sample([1, 2, 3], rng.choice([2, 3, 3]))
+    held = rng.sample(groups, rng.randrange(1, len(groups)))
+    for g in held if rng.random() < 0.5 else [held]:
+        us = g if isinstance(g, list) else [g]
+        h = opn(us, [rng.choice([base + 50, base + 50, base, 255]) for _ in us])
+        if rng.random() < 0.5:
+            wr(h)
+    holders = list(live)
+    for _ in range(rng.randrange(2, 6)):
+        units = list(groups) + ([rng.choice([4, 5])] if rng.random() < 0.4 else [])
+        rng.shuffle(units)
+        c = opn(units, [rng.choice([base, base, base - 1, base + 50]) for _ in units], eou=rng.random() < 0.05)
+        if c not in live:
+            continue
+        for _ in range(rng.randrange(1, 3)):
+            x = rng.random()
+            if x < 0.65:
+                wr(c)
+            elif x < 0.8 and holders:
+                h = rng.choice([h for h in holders if h in live] or [c])
+                wr(h)
+            else:
+                us = rng.sample(live[c], rng.randrange(1, len(live[c]) + 1))
+                ops.append({"op": "set", "w": c, "units": [[u, rng.choice([base, base + 50, base + 51, 0])] for u in us]})
+                wr(c)
+        if rng.random() < 0.15 and holders:
+            h = rng.choice(holders)
+            if h in live:
+                ops.append({"op": "close", "w": h})
+                del live[h]
+        if rng.random() < 0.85:
+            ops.append({"op": "close", "w": c})
+            del live[c]
+    return {"kind": "e2eg", "e2eg": {"ops": ops}}
+
+
+def e2eg_to_coq(case, r):
+    steps = []
+    for o, x in zip(case["e2eg"]["ops"], r["e2eg"]["steps"]):
+        if o["op"] == "open":
+            co = "GOpen %s %s %s %s" % (cN(o["w"]), cN(o["subj"]), c_chans(o["units"]), cbool(o.get("eou")))
+        elif o["op"] == "write":
+            co = "GWrite %s %s %s" % (cN(o["w"]), clist([cN(k) for k in o["keys"]]), cN(o["n"]))
+        elif o["op"] == "set":
+            co = "GSet %s %s" % (cN(o["w"]), c_chans(o["units"]))
+        else:
+            co = "GClose %s" % cN(o["w"])
+        steps.append(cpair(co, cpair(cN(EST.get(x["st"], 8)), cN(x["auth"]), clist([cZ(t) for t in x["ts"]]))))
+    rd = clist([cpair(clist([cZ(t) for t in a]), clist([cZ(t) for t in b])) for a, b in r["e2eg"]["read"]])
+    return cpair(clist(steps), rd)
+
+
+def _phase(ctx, chk, kind, gen, tocoq, ctype, mism, viol, n, seedmul, what):
+    """generic extra phase: harness + model comparison + monitor, shrink by op removal"""
+    rng = random.Random(ctx.seed * seedmul + 17)
+    cases = [gen(rng) for _ in range(n)]
+
+    def ev(cs):
+        for i, c in enumerate(cs):
+            c["id"] = i
+        res = vlib.run_harness(ctx.bin, cs, timeout=900, procs=8)
+        terms, idx, bad = [], [], []
+        for i, c in enumerate(cs):
+            r = res.get(i)
+            if r is None or r.get("panic") or (r.get(kind) or {}).get("err"):
+                bad.append(i)
+                continue
+            terms.append(tocoq(c, r))
+            idx.append(i)
+        M, V, errs = vlib.coq_eval_cases(PID + kind, COQ_IMPORTS, ctype, terms, shard=50, mism=mism, viol=viol)
+        return res, [idx[m] for m in M], [idx[v] for v in V], bad, errs
+    res, M, V, bad, errs = ev(cases)
+    for i in bad[:2]:
+        r = res.get(i)
+        chk.report_case_violation(ctx, cases[i], r, "%s case failed in the harness: %s" %
+                                  (kind, (r or {}).get("panic") or ((r or {}).get(kind) or {}).get("err") or "no result"))
+    for e in errs[:1]:
+        rp = chk.write_replay(ctx, "V2", "%s correspondence could not be evaluated" % kind, {}, None, {"errors": errs[:5]})
+        ctx.violations.append({"kind": "V2", "what": "%s evaluation errors: %s" % (kind, e[:300]), "replay": rp, "found_input": False})
+    if V:
+        cur = min((cases[v] for v in V), key=lambda c: len(c[kind]["ops"]))
+        for _ in range(8):
+            cands = []
+            for i in range(len(cur[kind]["ops"])):
+                c = json.loads(json.dumps(cur))
+                del c[kind]["ops"][i]
+                cands.append(c)
+            if not cands:
+                break
+            # the failure may depend on Go map order fixed at open: try every candidate a few times
+            hit = None
+            for _try in range(3):
+                _, _, V2, _, _ = ev(cands)
+                if V2:
+                    hit = cands[V2[0]]
+                    break
+            if hit is None:
+                break
+            cur = hit
+            cur.pop("id", None)
+        rr = {}
+        for _try in range(12):
+            rr = vlib.run_harness(ctx.bin, [dict(cur, id=0)], procs=1)
+            if harness_violation(cur, rr.get(0) or {}):
+                break
+        chk.report_case_violation(ctx, cur, rr.get(0), what)
+    elif M:
+        i = M[0]
+        rp = chk.write_replay(ctx, "V2", "model and implementation disagree (%s)" % kind, cases[i], res.get(i),
+                              {"correspondence": "corr:C05/%s#%d" % (kind, i), "mismatching_cases": len(M)})
+        ctx.violations.append({"kind": "V2", "what": "correspondence corr:C05/%s broke on %d cases" % (kind, len(M)),
+                               "replay": rp, "found_input": False})
+    wr = [x for i in range(len(cases)) if i not in bad for x in res[i][kind]["steps"] if x["auth"] != 2]
+    ctx.extra_cov[kind + "_cases"] = len(cases)
+    ctx.extra_cov[kind + "_mismatches"] = len(M)
+    ctx.extra_cov[kind + "_monitor_rejections"] = len(V)
+    ctx.extra_cov[kind + "_writes_authorized"] = sum(1 for x in wr if x["auth"] == 1)
+    ctx.extra_cov[kind + "_writes_unauthorized"] = sum(1 for x in wr if x["auth"] == 0)
+
+
+E2EG_COUNTS = {"quick": 120, "thorough": 3000}
 E2EV_COUNTS = {"quick": 150, "thorough": 4000}
 EST = {"ok": 0, "unauth": 1, "valid": 2, "skip": 5, "config": 7, "other": 8, "err": 9}
 
@@ -526,6 +670,11 @@ def extra(ctx):
     ctx.extra_cov["e2ev_monitor_rejections"] = len(V)
     ctx.extra_cov["e2ev_writes_authorized"] = sum(1 for x in vw if x["auth"] == 1)
     ctx.extra_cov["e2ev_writes_unauthorized"] = sum(1 for x in vw if x["auth"] == 0)
+    # ---- (a3) end-to-end on writers spanning several index groups (+ virtual channels)
+    _phase(ctx, chk, "e2eg", gen_e2eg, e2eg_to_coq, "e2eg_case_t", "e2eg_mismatches", "e2eg_violations",
+           E2EG_COUNTS[ctx.tier], 577,
+           "cesium writers spanning several index groups: the authorized flag of a write or the persisted data "
+           "contradicts the control state of the groups in the frame")
     # ---- (b) concurrent calls under the race detector (validation, not proof)
     binp, blog = vlib.go_build(MODULE, PKG, BIN, race=True)
     if binp is None:
